@@ -4,6 +4,7 @@ import itertools
 from harness import gen_cds as G
 from harness.impl_chunk import enc_obj
 
+WARM_TWINS = {"quick": 0.02, "thorough": 0.05}      # engine: call-history twins (harness/warm.py)
 ID = "C07"
 LEAN_MODULE = "BioCantor.Props.C07"
 DESIGN_REF = "4/C07"
